@@ -1,10 +1,13 @@
 """C09 — the git repository is a faithful, append-only history that git tools can use."""
-from .. import gen_prog
+from hypothesis import strategies as st
+
+from .. import gen, gen_prog
+from ..machine import enc_body
 from ._machine import MachineCheck
 
 ID = "C09"
 RULE = (
-    "C01-style generated histories on tree-git and bare-git collections (both metadata kinds) incl. PROPPATCH, no-op rewrites and refused requests. After every step the real git CLI "
+    "C01-style generated histories on tree-git and bare-git collections (both metadata kinds) incl. PROPPATCH, no-op rewrites and refused requests; a quarter of the programs fill a collection, delete every member (empty tree) and write again. After every step the real git CLI "
     "(rev-list --parents, ls-tree -r, cat-file --batch, status --porcelain, fsck --strict) audits every collection: the previous commit chain is a suffix of the new one and history is linear; "
     "a step that is not an acknowledged change of the collection adds no commit and leaves the tree alone; an acknowledged change that alters the tree adds exactly one commit (PROPPATCH: at most one per "
     "acknowledged property) and one that does not alter it adds none; the HEAD tree lists exactly the model's members (+ .xandikos) with the served bytes; non-bare: status is clean except nested "
@@ -12,7 +15,32 @@ RULE = (
 )
 
 
+@st.composite
+def drain_program(draw):
+    """A collection is filled, emptied completely (its tree becomes the empty tree unless it holds .xandikos),
+    and written again - with reads in between that do not go through sync-collection."""
+    cfg = {"prefix": draw(st.sampled_from(gen_prog.PREFIXES)), "seed": [{"slot": "b1", "bare": True, "meta": draw(st.sampled_from(["config", "config", "file"])), "kind": "calendar"}]}
+    coll = draw(st.sampled_from(["b1", "b1", "c1"]))
+    steps = [{"op": "MKCOL", "fe": draw(gen_prog.FE), "coll": "c1", "kind": "mkcalendar"}]
+    names = [f"d{i}.ics" for i in range(draw(st.integers(1, 3)))]
+    for i, n in enumerate(names):
+        steps.append({"op": "PUT", "fe": draw(gen_prog.FE), "coll": coll, "name": n, "ctype": "text/calendar", "body": enc_body(draw(gen.calendar_object(uid=f"drain-{i}"))["raw"]), "cond": []})
+    for n in draw(st.permutations(names)):
+        steps.append({"op": "DELETE", "fe": draw(gen_prog.FE), "coll": coll, "name": n, "cond": []})
+        if draw(st.booleans()):
+            steps.append({"op": "GET", "fe": draw(gen_prog.FE), "coll": coll, "name": n, "cond": []})
+    for i in range(draw(st.integers(1, 2))):
+        steps.append({"op": "PUT", "fe": draw(gen_prog.FE), "coll": coll, "name": f"e{i}.ics", "ctype": "text/calendar", "body": enc_body(draw(gen.calendar_object(uid=f"again-{i}"))["raw"]), "cond": []})
+    if draw(st.booleans()):
+        steps.append({"op": "RESTART"})
+    return {"config": cfg, "steps": steps}
+
+
 def strategy():
+    return st.one_of(random_program(), random_program(), random_program(), drain_program())
+
+
+def random_program():
     return gen_prog.program(
         weights={"PUT": 12, "PUT-invalid": 3, "POST": 1, "DELETE": 4, "DELETE-coll": 1, "MKCOL": 2, "PROPPATCH": 5, "GET": 1, "PROPFIND": 1, "REPORT": 2, "RECREATE": 1, "RESTART": 1, "READ": 4},
         min_steps=12,
@@ -24,8 +52,8 @@ def strategy():
     )
 
 
-def nontrivial(program, st, r):
-    return st.get("git:noop-checked", 0) >= 1 and st.get("noack:write", 0) >= 1 and st.get("ack:propset", 0) >= 1 and st.get("git:commit-checked", 0) >= 2
+def nontrivial(program, stt, r):
+    return stt.get("git:noop-checked", 0) >= 1 and stt.get("noack:write", 0) >= 1 and stt.get("ack:propset", 0) >= 1 and stt.get("git:commit-checked", 0) >= 2
 
 
 CHECK = MachineCheck(ID, RULE, ("content", "git"), strategy, nontrivial, quick=18, thorough=200, assumptions=["git 2.39 CLI is the reference reader", "dangling objects reported by fsck are not errors", "GIT_OPTIONAL_LOCKS=0 so that the audit never rewrites the index"])
